@@ -17,7 +17,7 @@ use std::sync::{Arc, Condvar, Mutex};
 use std::time::Duration;
 use tokio::io::{AsyncRead, AsyncWrite, AsyncWriteExt};
 
-pub const RULE: &str = "exit cause {clean Close, abrupt loss, text frame, unmasked/garbage WebSocket frame, malformed REPE frame (bad magic / trailing bytes), inline handler panic, connect-callback panic (first / second hook), embedder cancellation, drain-deadline abort, failed handshake (wrong path / non-HTTP bytes)} x phase {idle, inline handler running, off-reader handler parked, outbound queue non-empty (client not reading), reader parked handing a response to the full outbound queue} x 1..32 concurrent connections x entry point {serve_listener accept loop over TCP, serve_connection over an adopted duplex stream, serve_connection_with_cancel, serve_listener_with_graceful_drain}; with a PeerRegistry and an alias attached in a connect hook; oracle per accepted connection: the disconnect callback count is exactly 1 once the connection ended (0 for failed handshakes, and it never becomes 2), the peer and its alias resolve from inside connect hooks (after the insert), from inside handlers and just before the exit trigger, and no longer resolve afterwards, the two notifies queued by the connect callbacks are the first frames the client sees, in order, before the response to a request the client sent first, and every parked off-reader handler observes cancellation within the watchdog; after an embedder cancellation with an unread backlog the client keeps not reading until the hooks and the registry were checked; (cancel-early) cancellation 0..3000 us after serve_connection_with_cancel started (0 = token already cancelled): connect and disconnect callbacks each ran exactly once for the same peer, registry empty; non-trivial = exit cause != clean close, or phase != idle; distinct = case hash";
+pub const RULE: &str = "exit cause {clean Close, abrupt loss, text frame, unmasked/garbage WebSocket frame, malformed REPE frame (bad magic / trailing bytes), inline handler panic, connect-callback panic (first / second hook), embedder cancellation, drain-deadline abort, failed handshake (wrong path / non-HTTP bytes)} x phase {idle, inline handler running, off-reader handler parked, outbound queue non-empty (client not reading), reader parked handing a response to the full outbound queue} x 1..32 concurrent connections x entry point {serve_listener accept loop over TCP, serve_connection over an adopted duplex stream, serve_connection_with_cancel, serve_listener_with_graceful_drain}; with a PeerRegistry and an alias attached in a connect hook; oracle per accepted connection: the disconnect callback count is exactly 1 once the connection ended (0 for failed handshakes, and it never becomes 2), the peer and its alias resolve from inside connect hooks (after the insert), from inside handlers and just before the exit trigger, and no longer resolve afterwards, the two notifies queued by the connect callbacks are the first frames the client sees, in order, before the response to a request the client sent first, and every parked off-reader handler observes cancellation within the watchdog; after an embedder cancellation with an unread backlog the client keeps not reading until the hooks and the registry were checked; (cancel-early) cancellation 0..3000 us after serve_connection_with_cancel started (0 = token already cancelled): connect and disconnect callbacks each ran exactly once for the same peer, registry empty; (bare-server) a server with no disconnect callback and no registry: a parked off-reader handler still observes cancellation when the connection ends; (shared-registry) two servers feeding one PeerRegistry: distinct ids, each peer and alias present until its own disconnect; non-trivial = exit cause != clean close, or phase != idle; distinct = case hash";
 
 #[derive(Debug, Clone, Copy, Serialize, Deserialize, Hash, PartialEq, Eq)]
 pub enum Cause {
@@ -618,6 +618,217 @@ pub fn check_cancel_early(c: &EarlyCancel) -> CheckResult {
     Ok(CaseInfo::new(true).class(if c.delay_us == 0 { "cancelled-before-serving" } else { "cancelled-around-connect" }))
 }
 
+// ------------------------------------------ a server without any disconnect hook
+
+/// "Handlers still running when the connection ends observe cancellation" does not
+/// depend on the embedder having registered disconnect callbacks or a registry.
+#[derive(Debug, Clone, Serialize, Deserialize, Hash, PartialEq, Eq)]
+pub struct BareCase {
+    pub cause: Cause,
+    pub accept_loop: bool,
+}
+
+pub fn check_bare_server(c: &BareCase) -> CheckResult {
+    #[derive(Default)]
+    struct Flags {
+        m: Mutex<(bool, bool)>, // (started, cancellation seen)
+        cv: Condvar,
+    }
+    let flags = Arc::new(Flags::default());
+    let f2 = flags.clone();
+    let router = Router::new()
+        .with_json_ctx_blocking("/off_gate", move |ctx: &CallContext, _v: Value| {
+            f2.m.lock().unwrap().0 = true;
+            f2.cv.notify_all();
+            let deadline = std::time::Instant::now() + Duration::from_secs(20);
+            while !ctx.is_cancelled() && std::time::Instant::now() < deadline {
+                std::thread::sleep(Duration::from_millis(1));
+            }
+            if ctx.is_cancelled() {
+                f2.m.lock().unwrap().1 = true;
+                f2.cv.notify_all();
+            }
+            Ok(json!("done"))
+        })
+        .with_json("/ping", |_v: Value| Ok(json!("pong")));
+    let server = WebSocketServer::new(router).on_error(|_e| {});
+    let flags_w = flags.clone();
+    let wait = move |which: usize| {
+        let flags = flags_w;
+        let deadline = std::time::Instant::now() + watchdog();
+        let mut g = flags.m.lock().unwrap();
+        loop {
+            let v = if which == 0 { g.0 } else { g.1 };
+            if v {
+                return true;
+            }
+            let now = std::time::Instant::now();
+            if now >= deadline {
+                return false;
+            }
+            g = flags.cv.wait_timeout(g, deadline - now).unwrap().0;
+        }
+    };
+    let cause = c.cause;
+    let accept_loop = c.accept_loop;
+    let (started, cancelled) = block_on(async {
+        async fn drive<S>(mut io: WsIo<S>, cause: Cause, wait_started: impl FnOnce() -> bool + Send + 'static) -> Result<bool, Fail>
+        where
+            S: tokio::io::AsyncRead + tokio::io::AsyncWrite + Unpin + Send + 'static,
+        {
+            io.send(&frame_with(3, 0, b"/off_gate", 1, b"null", 2, 0)).await.map_err(|e| Fail::new("harness-send", e.to_string()))?;
+            let started = tokio::task::spawn_blocking(wait_started).await.unwrap();
+            if !started {
+                return Ok(false);
+            }
+            match cause {
+                Cause::AbruptLoss => drop(io),
+                Cause::TextFrame => {
+                    let _ = io.send_text("not binary").await;
+                    tokio::spawn(async move { while let Ok(Ok(Some(_))) = tokio::time::timeout(Duration::from_secs(15), io.recv_raw()).await {} });
+                }
+                Cause::BadMagic => {
+                    let mut f = frame_with(9, 0, b"/ping", 1, b"null", 2, 0);
+                    f[8] = 0;
+                    let _ = io.send(&f).await;
+                    tokio::spawn(async move { while let Ok(Ok(Some(_))) = tokio::time::timeout(Duration::from_secs(15), io.recv_raw()).await {} });
+                }
+                _ => {
+                    let _ = io.ws.send(repe::tokio_tungstenite::tungstenite::Message::Close(None)).await;
+                    tokio::spawn(async move { while let Ok(Ok(Some(_))) = tokio::time::timeout(Duration::from_secs(15), io.recv_raw()).await {} });
+                }
+            }
+            Ok(true)
+        }
+        let flags_a = flags.clone();
+        let wait_started = move || {
+            let deadline = std::time::Instant::now() + watchdog();
+            let mut g = flags_a.m.lock().unwrap();
+            while !g.0 {
+                let now = std::time::Instant::now();
+                if now >= deadline {
+                    return false;
+                }
+                g = flags_a.cv.wait_timeout(g, deadline - now).unwrap().0;
+            }
+            true
+        };
+        let started = if accept_loop {
+            let listener = WebSocketServer::listen(crate::util::lo0().as_str()).await.map_err(|e| Fail::new("harness-listen", e.to_string()))?;
+            let addr = listener.local_addr().unwrap();
+            crate::peers::net::defer_drop(crate::peers::net::AbortOnDrop(tokio::spawn(async move {
+                let _ = server.serve_listener(listener, "/repe").await;
+            })));
+            let (ws, _) = repe::tokio_tungstenite::connect_async(format!("ws://{addr}/repe"))
+                .await
+                .map_err(|e| Fail::new("harness-connect", e.to_string()))?;
+            drive(WsIo::new(ws), cause, wait_started).await?
+        } else {
+            let shared = server.into_shared();
+            let (client_half, server_half) = tokio::io::duplex(1 << 16);
+            let ws = shared.adopt_upgraded(server_half).await;
+            tokio::spawn(async move { shared.serve_connection(ws).await });
+            let cws = WebSocketStream::from_raw_socket(client_half, Role::Client, None).await;
+            drive(WsIo::new(cws), cause, wait_started).await?
+        };
+        let cancelled = if started { tokio::task::spawn_blocking(move || wait(1)).await.unwrap() } else { false };
+        Ok::<_, Fail>((started, cancelled))
+    })?;
+    ensure!(started, "handler-not-started", "the off-reader handler did not start");
+    ensure!(
+        cancelled,
+        "handler-not-cancelled",
+        "server without disconnect hooks or registry ({}): the parked off-reader handler did not observe cancellation within {:?} after the connection ended by {:?}",
+        if c.accept_loop { "accept loop" } else { "serve_connection" },
+        watchdog(),
+        c.cause
+    );
+    Ok(CaseInfo::new(true).class(format!("bare:{:?}", c.cause)))
+}
+
+// ----------------------------------------- two servers feeding one peer registry
+
+/// One `PeerRegistry` attached to two servers: every connection's peer (and alias) is
+/// present from its connect until its own disconnect, whatever happens on the other
+/// server; ids never collide.
+pub fn check_shared_registry(order: &bool) -> CheckResult {
+    let close_a_first = *order;
+    let peers = PeerRegistry::new();
+    let ids: Arc<Mutex<Vec<(u8, u64)>>> = Arc::new(Mutex::new(Vec::new()));
+    let gone: Arc<Mutex<Vec<u64>>> = Arc::new(Mutex::new(Vec::new()));
+    let mk = |tag: u8| {
+        let (ids, gone, reg) = (ids.clone(), gone.clone(), peers.clone());
+        WebSocketServer::new(Router::new().with_json("/ping", |_v: Value| Ok(json!("pong"))))
+            .with_peer_registry(peers.clone())
+            .on_peer_connect(move |peer| {
+                reg.alias(peer.peer_id(), format!("srv{tag}-{}", peer.peer_id().0));
+                ids.lock().unwrap().push((tag, peer.peer_id().0));
+            })
+            .on_peer_disconnect(move |id| gone.lock().unwrap().push(id.0))
+            .on_error(|_e| {})
+            .into_shared()
+    };
+    let (s1, s2) = (mk(1), mk(2));
+    let wait_for = |f: &dyn Fn() -> bool| {
+        let deadline = std::time::Instant::now() + watchdog();
+        while !f() && std::time::Instant::now() < deadline {
+            std::thread::sleep(Duration::from_millis(1));
+        }
+        f()
+    };
+    block_on(async {
+        let a = crate::peers::dws::connect(&s1, 1 << 16).await;
+        let b = crate::peers::dws::connect(&s2, 1 << 16).await;
+        let (mut io_a, mut io_b) = (a.io, b.io);
+        // a round trip on each, so both connect hooks have certainly run
+        for io in [&mut io_a, &mut io_b] {
+            io.send(&frame_with(1, 0, b"/ping", 1, b"null", 2, 0)).await.map_err(|e| Fail::new("harness-send", e.to_string()))?;
+            match tokio::time::timeout(watchdog(), io.recv()).await {
+                Ok(Ok(Some(_))) => {}
+                _ => return Err(Fail::new("no-reply", "ping on a fresh connection was not answered")),
+            }
+        }
+        let seen = ids.lock().unwrap().clone();
+        ensure!(seen.len() == 2, "connect-hook-count", "connect callbacks ran for {seen:?}");
+        let id_a = seen.iter().find(|(t, _)| *t == 1).map(|(_, i)| *i).unwrap_or(u64::MAX);
+        let id_b = seen.iter().find(|(t, _)| *t == 2).map(|(_, i)| *i).unwrap_or(u64::MAX);
+        ensure!(id_a != id_b, "peer-id-collision", "two servers sharing one registry minted the same peer id {id_a} for different connections");
+        let present = |id: u64, tag: u8| peers.get(PeerId(id)).is_some() && peers.get_by(format!("srv{tag}-{id}").as_str()).map(|p| p.peer_id().0) == Some(id);
+        ensure!(
+            present(id_a, 1) && present(id_b, 2),
+            "peer-missing-while-connected",
+            "with both connections up: peer {id_a} present: {}, peer {id_b} present: {}",
+            present(id_a, 1),
+            present(id_b, 2)
+        );
+        let (first, first_id, second, second_id, second_tag) = if close_a_first { (io_a, id_a, io_b, id_b, 2) } else { (io_b, id_b, io_a, id_a, 1) };
+        drop(first);
+        let g2 = gone.clone();
+        let ok = tokio::task::spawn_blocking(move || {
+            let deadline = std::time::Instant::now() + watchdog();
+            while !g2.lock().unwrap().contains(&first_id) && std::time::Instant::now() < deadline {
+                std::thread::sleep(Duration::from_millis(1));
+            }
+            g2.lock().unwrap().contains(&first_id)
+        })
+        .await
+        .unwrap();
+        ensure!(ok, "disconnect-hook-missing", "the disconnect callback for peer {first_id} did not run");
+        ensure!(peers.get(PeerId(first_id)).is_none(), "peer-present-after-disconnect", "peer {first_id} still resolves after its disconnect");
+        ensure!(
+            present(second_id, second_tag),
+            "peer-missing-while-connected",
+            "peer {second_id} (other server, still connected) no longer resolves after peer {first_id} disconnected"
+        );
+        drop(second);
+        Ok(())
+    })?;
+    ensure!(wait_for(&|| peers.is_empty()), "registry-not-empty", "{} peers remain registered after both connections ended", peers.len());
+    let g = gone.lock().unwrap().clone();
+    ensure!(g.len() == 2, "disconnect-hook-count", "disconnect callbacks ran for {g:?}");
+    Ok(CaseInfo::new(true).class("shared-registry"))
+}
+
 // -------------------------------------- handshake failures and graceful drain
 
 #[derive(Debug, Clone, Serialize, Deserialize, Hash, PartialEq, Eq)]
@@ -799,6 +1010,12 @@ pub fn run(ctx: &Ctx, rep: &Report) {
         .flat_map(|entry| [false, true].into_iter().map(move |second| PanicCase { second, entry }))
         .collect();
     run_enum(ctx, rep, "connect-panic", &panics, true, &check_connect_panic);
+    let bare: Vec<BareCase> = [Cause::CleanClose, Cause::AbruptLoss, Cause::TextFrame, Cause::BadMagic]
+        .into_iter()
+        .flat_map(|cause| [false, true].into_iter().map(move |accept_loop| BareCase { cause, accept_loop }))
+        .collect();
+    run_enum(ctx, rep, "bare-server", &bare, true, &check_bare_server);
+    run_enum(ctx, rep, "shared-registry", &[true, false], true, &check_shared_registry);
     let early: Vec<EarlyCancel> = [0u16, 0, 1, 5, 20, 50, 100, 200, 400, 800, 1500, 3000].into_iter().map(|delay_us| EarlyCancel { delay_us }).collect();
     run_enum(ctx, rep, "cancel-early", &early, false, &check_cancel_early);
     run_prop(ctx, rep, "cancel-early", ctx.tier.pick(60, 5_000), &|| (0u16..2000).prop_map(|delay_us| EarlyCancel { delay_us }).boxed(), &check_cancel_early);
@@ -823,6 +1040,8 @@ pub fn replay(sub: &str, case: &serde_json::Value) -> Result<(), Fail> {
         "grid" | "random" => replay_case::<Case>(case, &check),
         "connect-panic" => replay_case::<PanicCase>(case, &check_connect_panic),
         "cancel-early" => replay_case::<EarlyCancel>(case, &check_cancel_early),
+        "bare-server" => replay_case::<BareCase>(case, &check_bare_server),
+        "shared-registry" => replay_case::<bool>(case, &check_shared_registry),
         "accept-loop" => replay_case::<LoopCase>(case, &check_accept_loop),
         _ => Err(Fail::new("replay-unknown-sub", sub.to_string())),
     }
